@@ -25,7 +25,7 @@ func (c13) ID() string { return "C13" }
 
 func (c13) Runs(tier string) int {
 	if tier == "thorough" {
-		return 1500000
+		return 700000
 	}
 	return 16000
 }
